@@ -29,7 +29,7 @@ NMenu == << <<>>, <<"3">> >>
 HomeVal == <<"/","h">>
 
 \* Tokens and their source text
-Toks == {"A","SP","DQ","SQ","V","VD","VU","VL","AR","BD","BB","BA","BQ","BR","TI","SL","OB","OA"}
+Toks == {"A","SP","DQ","SQ","V","VD","VU","VL","AR","AO","BD","BB","BA","BQ","BR","TI","SL","OB","OA"}
 TokSrc(t) ==
   CASE t = "A"  -> <<"a">>
     [] t = "B"  -> <<"b">>            \* only produced by brace expansion
@@ -41,6 +41,7 @@ TokSrc(t) ==
     [] t = "VU" -> <<"$","{","v","-","u","}">>
     [] t = "VL" -> <<"$","{","#","v","}">>
     [] t = "AR" -> <<"$","(","(","1","+","n",")",")">>
+    [] t = "AO" -> <<"$","(","(","n","|","|","0",")",")">>
     [] t = "BD" -> <<"\\","$">>
     [] t = "BB" -> <<"\\","\\">>
     [] t = "BA" -> <<"\\","a">>
@@ -65,7 +66,8 @@ ExpText(t, e) ==
     [] t = "VU" -> IF e.v = <<>> THEN <<"u">> ELSE e.v     \* an empty value means unset
     [] t = "VL" -> Dec(Len(e.v))
     [] t = "AR" -> Dec(1 + NVal(e))
-IsExp(t) == t \in {"V","VD","VU","VL","AR"}
+    [] t = "AO" -> IF NVal(e) # 0 THEN <<"1">> ELSE <<"0">>   \* logical operators yield 0 or 1
+IsExp(t) == t \in {"V","VD","VU","VL","AR","AO"}
 
 -----------------------------------------------------------------------------
 (* Here-document mode *)
@@ -164,7 +166,7 @@ Arg(ts, e) == ArgD(ts, e, FALSE)
 -----------------------------------------------------------------------------
 (* The input builder: tokens, then the environment (only the variables that are used) *)
 UsesV(ts) == HasTok(ts, {"V","VD","VU","VL"})
-UsesN(ts) == HasTok(ts, {"AR"})
+UsesN(ts) == HasTok(ts, {"AR","AO"})
 Init == toks = <<>> /\ phase = "s" /\ vI = 1 /\ nI = 1 /\ iI = 1
 \* After an unterminated ${ no token containing } is added, so that the opener stays unterminated
 \* (otherwise `${` `a` `~` `{a,b}` is bash's undocumented case-toggling ${a~pattern}, `${` `a` `{a,b}`
@@ -188,7 +190,7 @@ Env == [v |-> VMenu[vI], n |-> NMenu[nI], ifs |-> IMenu[iI]]
 -----------------------------------------------------------------------------
 (* Laws *)
 \* L1: text without expansions and backslashes is here-document text unchanged
-L_DocLiteral == (IsVec /\ ~HasTok(toks, {"V","VD","VU","VL","AR","BD","BB","OB","OA"})) =>
+L_DocLiteral == (IsVec /\ ~HasTok(toks, {"V","VD","VU","VL","AR","AO","BD","BB","OB","OA"})) =>
                   Doc(toks, Env) = [err |-> FALSE, out |-> Src(toks)]
 \* L2: the whole string inside double quotes, as an argument, is the here-document text
 \*     (when the string has no double quote of its own, quoted or escaped)
@@ -212,6 +214,6 @@ Emit ==
   PrintT(<<"VEC", ToJson([
      toks |-> toks, src |-> Src(toks), v |-> e.v, n |-> e.n, ifs |-> e.ifs, home |-> HomeVal,
      doc |-> d, arg |-> a, argdqe |-> ArgD(toks, e, TRUE),
-     nontrivial |-> (HasTok(toks, {"V","VD","VU","VL","AR","DQ","SQ","BD","BB","BA","BQ","BR","TI"}) /\ ~(d.err /\ a.err)) ])>>)
+     nontrivial |-> (HasTok(toks, {"V","VD","VU","VL","AR","AO","DQ","SQ","BD","BB","BA","BQ","BR","TI"}) /\ ~(d.err /\ a.err)) ])>>)
 EmitInv == Emit
 =============================================================================
